@@ -126,9 +126,11 @@ def moderate_case(rng, fams):
     """a case of the family with moderate magnitudes (so that accuracy bounds are meaningful), still drawing the
     sensitive classes: w<0, headings next to +-pi, shared pose objects, distinct random ids"""
     c = X.gen_case(rng, fams, flavour=rng.choices(['typical', 'adversarial', 'shared'], [0.4, 0.35, 0.25])[0])
+    far = rng.random() < 0.25        # survey-sized coordinates (the step of the forward difference is absolute, 1e-6, wherever the poses are)
+    centre = [rng.uniform(-5000, 5000) for _ in range(3)]
     for i, k in enumerate(c['kinds']):
         n = X.PDIM[k]
-        c['vals'][i][:n] = [rng.gauss(0, 4) for _ in range(n)]
+        c['vals'][i][:n] = [(centre[j] if far else 0.0) + rng.gauss(0, 4) for j in range(n)]
         if k == 'SE3':
             q = [rng.gauss(0, 1) for _ in range(4)]
             nn = math.sqrt(sum(x * x for x in q))
@@ -138,6 +140,7 @@ def moderate_case(rng, fams):
             c['vals'][i][3:] = q
         if k == 'SE2' and abs(c['vals'][i][2]) > 4:
             c['vals'][i][2] = rng.uniform(-math.pi, math.pi)
+    c['far_centre'] = centre if far else None
     for i, j in enumerate(c['share']):
         if j is not None:
             c['vals'][i] = list(c['vals'][j])
@@ -204,6 +207,22 @@ def fd_accuracy(seed, n, fams=None):
         c = moderate_case(rng, [f for f in fams if f[0] == nm])
         exprs = X.find_family(fams, c)
         got, f = fd_accuracy_case(c, exprs)
+        if f is None and c.get('far_centre') and c['family'] in ('distance', 'sqrange', 'relpose', 'between3'):
+            # these errors depend on differences of positions only: the numerical Jacobians of the configuration moved next to the origin
+            # must be the same matrices (the majorant floor of fd_accuracy_case is too coarse to bound anything at |x| ~ 5000)
+            near = dict(c, vals=[list(v) for v in c['vals']])
+            for i, k in enumerate(c['kinds']):
+                for j in range(X.PDIM[k]):
+                    near['vals'][i][j] = c['vals'][i][j] - c['far_centre'][j]
+            ra, rb = X.run_real(c, exprs), X.run_real(near, exprs)
+            if 'exc' not in ra and 'exc' not in rb:
+                for k in range(len(c['kinds'])):
+                    A, B = np.array(ra['jac'][k], dtype=np.float64), np.array(rb['jac'][k], dtype=np.float64)
+                    if A.shape == B.shape and A.size and not np.allclose(A, B, rtol=0, atol=2e-4 * (1.0 + float(np.abs(B).max()))):
+                        f = dict(case=c, slot=k, why='numerical Jacobian of slot %d at coordinates near %s differs from the one of the same configuration moved to the '
+                                 'origin by %.3g (the error depends on position differences only)' % (k, [round(x) for x in c['far_centre']], float(np.abs(A - B).max())),
+                                 far=A.tolist(), near=B.tolist())
+                        break
         ev += 1
         entries += got
         hist['family'][c['family']] = hist['family'].get(c['family'], 0) + 1
